@@ -7,6 +7,7 @@ CONSTANTS
   Exclusions = {"none", "orig", "other"}
   Percents = {"neither", "both", "minonly"}
   ForgedKinds = {"none", "both"}
+  Outdated = {FALSE, TRUE}
   Variant = "intended"
 INVARIANT Emit
 CHECK_DEADLOCK FALSE
